@@ -689,6 +689,19 @@ def rule_location(model):
                         n.value.id in org and \
                         len(model.local_defs(fi, n.targets[0].id)) == 1:
                     org[n.targets[0].id] = org[n.value.id]
+        # a name that already stands for one tag occurrence (a parameter,
+        # the current match) and is re-assigned from a name standing for
+        # another one no longer identifies either
+        for n in own_nodes(fi.node):
+            if isinstance(n, ast.Assign) and len(n.targets) == 1 and \
+                    isinstance(n.targets[0], ast.Name) and \
+                    isinstance(n.value, ast.Name) and \
+                    n.targets[0].id in org and n.value.id in org and \
+                    len(model.local_defs(fi, n.targets[0].id)) > 1 and \
+                    org[n.value.id] != org[n.targets[0].id] and \
+                    org[n.targets[0].id][0] != 'mixed':
+                org[n.targets[0].id] = (
+                    'mixed', f'{org[n.targets[0].id]} / {org[n.value.id]}')
         return org
 
     def handler_match(fi, node):
